@@ -852,6 +852,98 @@ theorem execResultPath_spec (cfg : Cfg) (tl : Bool) (a n x : Nat) (u : View) (h 
     | assumption
     | exact Or.inl (by unfold HF; assumption)
     | skip
+  -- success: the outcome
+  · rename_i s5 s4 h4 _ s3 h3 _ s2 h2 _ s1 h1 o s h0
+    rw [h0.2]
+    have e4 : view cfg s1 = view cfg s4 := by rw [h1, h2, h3]
+    have ho := h0.1
+    rw [e4] at ho ⊢
+    exact succ_OutOK h h4.1 ho
+  -- success: `emit` raised
+  · rename_i s3 s2 h2 _ s1 h1 e' s ht hv hx
+    rw [hv, h1]
+    exact succ_emit_err h h2.1 ht hx
+  -- success: `strategy.record_success()` raised
+  · rename_i s2 s1 h1 e' s ht hs
+    exact succ_srs_err h h1.1 ht hs
+  -- there is a result classifier
+  · rename_i s3 c s2 h2 _ s1 h1 _ s h0
+    exact h2.2 rfl
+  -- the state `handleFailure` starts from
+  · rename_i s3 c s2 h2 _ s1 h1 _ s h0
+    rw [h0, h1, h2.1]
+  -- decision "raise": delivery raised
+  · rename_i hr hx
+    exact xerr_of_raise hr hx
+  -- decision "raise": delivery's precondition
+  · rename_i d hd s4 h4 o s3 h3 _ s2 h2 _ s1 h1 _ _ s a5 _ _ _ _ _
+    rw [a5, h1, h2]
+    exact rec_after_fail h4 h3.1 h3.2
+  -- decision "raise": the sleep phase raised
+  · rename_i s1 h1 e' s _ hs he
+    exact xerr_of_herr h1 hs he
+  -- decision "retry": delivery raised
+  · rename_i hr hx
+    exact xerr_of_raise hr hx
+  -- decision "retry": delivery's precondition
+  · rename_i s5 h5 _ s4 h4 o s3 h3 _ s2 h2 _ s1 h1 _ _ s a5 _ _ _ _ _
+    rw [a5, h1, h2]
+    rcases recD_after_poll h5 h4 with hh | hh
+    · exact Or.inl (hh.hsame h3.1)
+    · rw [hh] at h3
+      exact rec_after_fail h5 h3.1 h3.2
+  -- decision "retry": the sleep phase raised
+  · rename_i s5 h5 _ s4 h4 e' s _ hs he
+    rcases recD_after_poll h5 h4 with hh | hh
+    · obtain ⟨_, he2, _⟩ := he
+      left; unfold HF at *; rw [he2]; exact hh
+    · rw [hh] at he
+      exact xerr_of_herr h5 hs he
+  -- the second abort poll raised
+  · rename_i s1 h1 e' s _ a4 a3 a2 a1 a0
+    exact xerr_of_poll (RecD.abortReady h1) a3 a2
+  -- the first abort poll raised
+  · rename_i s2 c s1 h1 e' s a4 a3 a2 a1 a0
+    rw [h1.1] at a2
+    exact xerr_of_poll (pend_abortReady c h (h1.2 rfl) a0) a3 a2
+  -- the result classifier raised
+  · rename_i s1 e' s ht hf hrc
+    exact xerr_of_ferr (ValX.abortReady h hrc) ht hf
+
+/-- the `except` ladder once the operation has returned: only an abort is caught -/
+theorem execReturnedHandler_spec (cfg : Cfg) (tl : Bool) (a : Nat) (e : Exn) :
+    ⦃fun w => ⌜XErr (view cfg w) w.trace e⌝⦄ execReturnedHandler cfg tl a e
+    ⦃outPost cfg fun _ => False⦄ := by
+  have hae := execAbortExit_spec cfg tl a e
+  mvcgen [execReturnedHandler, hae]
+  all_goals ((try subst_vars) <;> (try intros))
+  all_goals (try clear hae)
+  all_goals first
+    | assumption
+    | skip
+  · rename_i ha _ h
+    rcases h with h | h
+    · exact Or.inl h
+    · exact Or.inr (h.2.2 ha)
+  · rename_i ha _ h
+    rcases h with h | h
+    · exact Or.inl h
+    · exact Or.inr ⟨h.1, h.2.1 (by simpa using ha)⟩
+
+/-- one iteration of the loop of execute() -/
+theorem execAttempt_spec (cfg : Cfg) (tl : Bool) (a n : Nat) (u : View) (h : HF u ∨ HdX n u) (ha : a = n + 1) :
+    ⦃fun w => ⌜view cfg w = u⌝⦄ execAttempt cfg tl a
+    ⦃outPost cfg fun v => HF v ∨ HdX (n + 1) v⦄ := by
+  have hpre := execPre_spec cfg tl a n u h ha
+  have hh := fun e => execHandler_spec cfg tl a n e
+  have hrp := fun x v hv => execResultPath_spec cfg tl a n x v hv ha
+  have hrh := fun e => execReturnedHandler_spec cfg tl a e
+  mvcgen [execAttempt, hpre, hh, hrp, hrh]
+  all_goals ((try subst_vars) <;> (try intros))
+  all_goals (try clear hpre hh hrp hrh)
+  all_goals first
+    | assumption
+    | skip
   all_goals trace_state
   all_goals sorry
 
